@@ -44,14 +44,14 @@ def complete_event(draw, rank: int, epoch: int, fractional: bool, names_host: Li
         cat = pick(draw, CATS_HOST) if not name.startswith("cuda") else "cuda_runtime"
         args: Dict[str, Any] = {"External id": draw(st.integers(1, 500))}
         if draw(st.booleans()):
-            args["correlation"] = draw(st.integers(1, 60))
+            args["correlation"] = draw(st.sampled_from([0, 1, 2, 3, 17, 59]))
         if draw(st.sampled_from([False] * 6 + [True])):
             args["Input Dims"] = [[2, 3], []]
         e = {"ph": "X", "cat": cat, "name": name, "pid": 5000 + rank, "tid": pick(draw, [5000 + rank, 6000 + rank]), "ts": ts, "dur": dur,
              "args": args}
     else:
         name = pick(draw, names_dev)
-        stream = pick(draw, [7, 7, 20, 24])
+        stream = pick(draw, [7, 0, 7, 20, 24])
         sval: Any = stream
         if name in ("Context Sync", "Event Sync"):
             sval = -1
@@ -59,7 +59,7 @@ def complete_event(draw, rank: int, epoch: int, fractional: bool, names_host: Li
             sval = pick(draw, [str(stream), "n/a"])
         args = {"device": rank % 8, "context": 1, "stream": sval}
         if draw(st.sampled_from([True, True, True, False])):
-            args["correlation"] = draw(st.integers(1, 60))
+            args["correlation"] = draw(st.sampled_from([0, 1, 2, 3, 17, 59]))
         if draw(st.sampled_from([False] * 4 + [True])):
             args["bytes"] = 1024
             args["memory bandwidth (GB/s)"] = 1.5
